@@ -398,6 +398,11 @@ func (q *TransmitLimitedQueue) Prune(maxRetain int) {
 	q.mu.Lock()
 	defer q.mu.Unlock()
 
+	// Nothing is queued; the tree may not even have been created yet
+	if q.lenLocked() == 0 {
+		return
+	}
+
 	// Do nothing if queue size is less than the limit
 	for q.tq.Len() > maxRetain {
 		item := q.tq.Max()
